@@ -594,8 +594,17 @@ class Module:
                         return ["mergeTiming"]
                     if src.startswith("arg_to_uint(") or src.startswith("arg_to_int("):
                         return ["check"]
-                    if "self._" in src and "(" in src.replace("len(", "").replace("sum(", "").replace("range(", "") and "reshape" not in src:
-                        fail(f"local bound to a call on self: {src}", st)
+                    if "reshape" not in src:
+                        # a local may read self only through attribute reads and the pure functions below; any other call that can
+                        # reach self (a method of self or of one of its members, or a function given a member) is not a plain local
+                        pure = {"len", "sum", "range", "np.may_share_memory"}
+                        for c in ast.walk(st.value):
+                            if not isinstance(c, ast.Call):
+                                continue
+                            f = ast.unparse(c.func)
+                            touches = f.startswith("self.") or f.startswith("self._") or any("self." in ast.unparse(a) for a in list(c.args) + [k.value for k in c.keywords])
+                            if touches and (f.startswith("self.") or f not in pure):
+                                fail(f"local bound to a call on self: {src}", st)
                     return ["local"]
                 if isinstance(target, ast.Subscript) and self_attr(target.value, "_data"):
                     return ["copy"]
